@@ -497,9 +497,10 @@ namespace
                 // A sibling, not a repeat: the other legal token characters ('^' and '~', the only pair of
                 // tchars that differ in nothing but bit 0x20) give a DIFFERENT header whose name equals the
                 // first one under a careless case fold.  Derived from the position, no choice consumed.
-                if (i % 2 == 0 && (canon.back() == '^' || canon.back() == '~'))
+                size_t sib = canon.find_last_of("^~");
+                if (i % 2 == 0 && sib != std::string::npos)
                 {
-                    canon.back() = canon.back() == '^' ? '~' : '^';
+                    canon[sib] = canon[sib] == '^' ? '~' : '^';
                     reuse        = std::find(names.begin(), names.end(), canon) != names.end();
                     rep.label("lookup:sibling-name(^ vs ~)");
                 }
@@ -512,8 +513,18 @@ namespace
             else
             {
                 canon = "X-" + c.from(TOKCH, c.range(1, 10));
-                if (canon.size() % 3 == 0) // a third of the free names end in '^' (see the sibling rule above)
-                    canon += '^';
+                // a third of the free names carry a '^' (see the sibling rule above): at the end, or - by the name's
+                // length - somewhere inside; half of those are then lengthened, so that the character also falls into
+                // the first bytes of a long name (a comparison that works in machine words treats the two differently)
+                if (canon.size() % 3 == 0)
+                {
+                    if (canon.size() % 2)
+                        canon += '^';
+                    else
+                        canon.insert(2 + (canon.size() * 5) % (canon.size() - 1), 1, '^');
+                    if (canon.size() % 4 < 2)
+                        canon += "-and-a-long-tail";
+                }
             }
             bool reg = false;
             for (auto& r : REG)
